@@ -59,11 +59,15 @@ Definition G_ws : ogrammar :=
 Example C02_ws_nonatomic_refuted : why_not_H G_ws false = 2 /\ differ G_ws "x y".
 Proof. split; [reflexivity|differ_tac]. Qed.
 
-(* 11b: a user rule named like a hard-coded built-in - derive calls the user's rule, the VM its own *)
+(* 11b, repaired in /repo (fix 76a77f3): a user rule named like a hard-coded built-in shadows it in BOTH back-ends now;
+   the grammar is in H, both models match "z" and reject "5" *)
 Definition G_shadow : ogrammar :=
-  [ rl "r0" RNormal (OIdent (nm "ASCII_DIGIT")); rl "ASCII_DIGIT" RNormal (OStr (nm "x")) ].
-Example C02_shadow_builtin_refuted : why_not_H G_shadow false = 1 /\ differ G_shadow "x" /\ differ G_shadow "5".
-Proof. split; [reflexivity|split; differ_tac]. Qed.
+  [ rl "r0" RNormal (OIdent (nm "ASCII_DIGIT")); rl "ASCII_DIGIT" RNormal (OStr (nm "z")) ].
+Example C02_shadow_builtin_agree :
+  in_H G_shadow false = true /\
+  obs (res_gen G_shadow "z") = obs (res_vm G_shadow "z") /\ (exists p q st a pa na, obs (res_gen G_shadow "z") = ObsOk p q st a pa na) /\
+  obs (res_gen G_shadow "5") = obs (res_vm G_shadow "5") /\ (exists p q st a pa na, obs (res_gen G_shadow "5") = ObsErr p q st a pa na).
+Proof. vm_compute. repeat split; try reflexivity; repeat eexists. Qed.
 
 (* 13 (grammar-extras): `#t = e?` after a node - the VM tags the PRECEDING node when e matched nothing *)
 Definition G_tag_opt : ogrammar :=
